@@ -109,7 +109,7 @@ def run(ctx):
         r = core.Res(); r.argv = argv
         t0 = time.time()
         try:
-            p.wait(timeout=120)
+            p.wait(timeout=40)
         except subprocess.TimeoutExpired:
             dead, dump = core.judge_hang(p.pid)
             r.timed_out = True; r.deadlock = dead; r.gdb = dump
@@ -121,37 +121,45 @@ def run(ctx):
             else:
                 r.rc = p.returncode
         return r
+    pj = []
     for direction, args, data in workloads[:3]:
         for w in ws:
             for k in ([0, 1, 70000] if q else [0, 1, 4, 5000, 70000, 200000, 400000]):
                 for ignore in (False, True):
-                    r = closed_pipe(direction, args + ['-n', str(w)], data, k, ignore)
-                    ctx.ev()
-                    if direction == 'decompress' and k >= len(data) * 100:
-                        continue
-                    desc = dict(direction=direction, workers=w, real_fault='reader closes stdout after %d bytes' % k, signal_ignored=ignore)
-                    if r.rc == 0 and k >= 400000:
-                        continue
-                    if judge(ctx, r, 'closed pipe %s' % desc, 'EPIPE', desc, None):
-                        ctx.nt((direction, w, 'closed-pipe', k, ignore))
-                        ctx.count('real_closed_pipe_runs')
+                    pj.append((direction, args, data, w, k, ignore))
+
+    def pipe_one(j):
+        direction, args, data, w, k, ignore = j
+        r = closed_pipe(direction, args + ['-n', str(w)], data, k, ignore)
+        ctx.ev()
+        desc = dict(direction=direction, workers=w, real_fault='reader closes stdout after %d bytes' % k, signal_ignored=ignore)
+        if judge(ctx, r, 'closed pipe %s' % desc, 'EPIPE', desc, None):
+            ctx.nt((direction, w, 'closed-pipe', k, ignore))
+            ctx.count('real_closed_pipe_runs')
+    core.pmap(pipe_one, pj)
     # RLIMIT_FSIZE on a regular file
+    fj = []
     for direction, args, data in workloads[:3]:
         for w in ws:
             for limit in ([0, 50000] if q else [0, 1, 50000, 300000]):
                 for ignore in (False, True):
-                    out = core.tmppath('.out')
-                    argv = [runmon, '-f', str(limit)] + (['-i', '25'] if ignore else []) + ['--', lb] + args + ['-n', str(w)]
-                    r = core.run(argv, stdin=data, stdout_path=out, timeout=120)
-                    ctx.ev()
-                    try:
-                        os.unlink(out)
-                    except OSError:
-                        pass
-                    desc = dict(direction=direction, workers=w, real_fault='RLIMIT_FSIZE=%d' % limit, signal_ignored=ignore)
-                    if judge(ctx, r, 'fsize %s' % desc, 'EFBIG', desc, None):
-                        ctx.nt((direction, w, 'fsize', limit, ignore))
-                        ctx.count('real_fsize_runs')
+                    fj.append((direction, args, data, w, limit, ignore))
+
+    def fsize_one(j):
+        direction, args, data, w, limit, ignore = j
+        out = core.tmppath('.out')
+        argv = [runmon, '-f', str(limit)] + (['-i', '25'] if ignore else []) + ['--', lb] + args + ['-n', str(w)]
+        r = core.run(argv, stdin=data, stdout_path=out, timeout=40)
+        ctx.ev()
+        try:
+            os.unlink(out)
+        except OSError:
+            pass
+        desc = dict(direction=direction, workers=w, real_fault='RLIMIT_FSIZE=%d' % limit, signal_ignored=ignore)
+        if judge(ctx, r, 'fsize %s' % desc, 'EFBIG', desc, None):
+            ctx.nt((direction, w, 'fsize', limit, ignore))
+            ctx.count('real_fsize_runs')
+    core.pmap(fsize_one, fj)
     # stdin is a directory
     d = core.tmpdir()
     fd = os.open(d, os.O_RDONLY)
